@@ -244,6 +244,14 @@ impl VisitMut for OptChainVisitor<'_> {
             }
         };
     }
+
+    // Only the chain itself is lowered here. Call arguments and computed keys are expressions of
+    // their own: an optional chain inside them has its own null check, which must not be merged
+    // with (or replace) the one of the enclosing chain. They are visited afterwards by the
+    // operation visitor, which lowers them where they are.
+    fn visit_mut_expr_or_spreads(&mut self, _n: &mut Vec<ExprOrSpread>) {}
+
+    fn visit_mut_computed_prop_name(&mut self, _n: &mut ComputedPropName) {}
 }
 
 pub struct OptChainTransform {}
